@@ -320,7 +320,7 @@ func (x *Exec) compsOfFn(callee *ssa.Function, seen map[*ssa.Function]bool, out 
 func (x *Exec) expandModComp(c string, out map[string]bool) {
 	if strings.HasSuffix(c, "_*") {
 		pre := strings.TrimSuffix(c, "*")
-		for name := range x.E.CompSorts {
+		for _, name := range x.E.compNames() {
 			if strings.HasPrefix(name, pre) {
 				out[name] = true
 			}
@@ -461,7 +461,7 @@ func (x *Exec) execBody(fr *Frame, cond Term, st State, args []Value) (Term, Sta
 // specEnvFor builds the environment in which a contract's expressions are compiled.
 func (x *Exec) specEnv(cur, old State, vars map[string]SpecVar) *SpecEnv {
 	// make sure all components exist in both states (lazily created entry symbols)
-	for name := range x.E.CompSorts {
+	for _, name := range x.E.compNames() {
 		x.comp(cur, name)
 		x.comp(old, name)
 	}
@@ -469,7 +469,7 @@ func (x *Exec) specEnv(cur, old State, vars map[string]SpecVar) *SpecEnv {
 }
 
 func (x *Exec) fill(st State) State {
-	for name := range x.E.CompSorts {
+	for _, name := range x.E.compNames() {
 		x.comp(st, name)
 	}
 	return st
@@ -636,9 +636,10 @@ func (x *Exec) cutLoop(fr *Frame, li *loopInfo, bc Term, st State) State {
 	written := map[string]bool{}
 	x.compsWritten(fr.fn, li.blocks, map[*ssa.Function]bool{}, written)
 	nst := st.clone()
-	for c := range written {
+	for _, c := range sortedKeys(written) {
 		if c == "*map" {
-			for name, sort := range x.E.CompSorts {
+			for _, name := range x.E.compNames() {
+				sort := x.E.CompSorts[name]
 				if strings.HasPrefix(name, "Map_") {
 					nst[name] = x.C.Fresh(name+"_lp", sort)
 				}
